@@ -93,6 +93,8 @@ MassConserved == SumSeq([i \in DOMAIN small |-> small[i][2]]) + SumSeq([i \in DO
 DrainOnlyAtMean == phase = "drain" => (\A i \in DOMAIN small : small[i][2] = Mean(vec)) /\ (\A i \in DOMAIN large : large[i][2] = Mean(vec))
 DoneMatchesOperator == phase = "done" => table = Build(vec).table
 
-EmitTable == PrintT(<<"TABLE", ToJson([vectors |-> {[v |-> v, mean |-> Mean(v), total |-> Total(v),
-                                                     mass |-> LET tab == Build(v).table IN [c \in DOMAIN v |-> MassIn(tab, Mean(v), c)]] : v \in Vectors}])>>)
+ASSUME TLCSet(7, 0)
+(* printed once: the table is a constant, but TLC would re-evaluate (and re-serialise) it in every state *)
+EmitTable == TLCGet(7) = 1 \/ (TLCSet(7, 1) /\ PrintT(<<"TABLE", ToJson([vectors |-> {[v |-> v, mean |-> Mean(v), total |-> Total(v),
+                                                     mass |-> LET tab == Build(v).table IN [c \in DOMAIN v |-> MassIn(tab, Mean(v), c)]] : v \in Vectors}])>>))
 =============================================================================
